@@ -228,6 +228,10 @@ def run(chk, gate, status):
     for msg, doc in eq_fail[:3]:
         nfail += 1
         chk.violation(msg, doc)
+    # '%w/v' means hundredths of the configured default_weight_volume_units: under other settings (separate processes)
+    for msg, doc in wv_config_part()[:3]:
+        nfail += 1
+        chk.violation(msg, doc)
     if errors:
         chk.violation('model evaluation failed: ' + errors[0][:300], {'relation': 'coq_eval C14'}, found_input=False)
     chk.assumptions += ["Python's float() grammar and the splitting on the blank and on '/' are glue; the model starts from the value and the unit tokens",
@@ -278,9 +282,63 @@ def equivalents():
     return fails
 
 
+WV_SCRIPT = """
+import json, sys
+from pyplate import Unit
+out = []
+for s in json.loads(sys.argv[1]):
+    try:
+        out.append(['ok'] + list(Unit.parse_concentration(s)))
+    except Exception as e:
+        out.append(['exc', type(e).__name__])
+print(json.dumps(out))
+"""
+
+
+def wv_config_part(only=None):
+    """parse_concentration('x %w/v') under default_weight_volume_units = g/L, mg/mL, g/mL (each in its own process): x / 100 of that
+    unit, i.e. the same concentration as the spelled-out ratio"""
+    import subprocess, os, shutil
+    import histcheck
+    fails = []
+    for unit, per_L in (('g/L', F(1)), ('mg/mL', F(1)), ('g/mL', F(1000)), ('kg/L', F(1000))):
+        if only and unit != only:
+            continue
+        d = os.path.join(common.BUILD, 'cfg', 'C14wv_' + unit.replace('/', '_'))
+        shutil.rmtree(d, ignore_errors=True)
+        histcheck.write_config(d, {'default_weight_volume_units': unit})
+        strings = ['5 %w/v', '0.9 %w/v', '12.5 %w/v']
+        env = dict(os.environ, PYPLATE_CONFIG=d)
+        p = subprocess.run(['/venv/bin/python', '-c', WV_SCRIPT, json.dumps(strings)], env=env, stdout=subprocess.PIPE, stderr=subprocess.STDOUT, text=True, timeout=300)
+        shutil.rmtree(d, ignore_errors=True)
+        try:
+            res = json.loads(p.stdout.strip().splitlines()[-1])
+        except Exception:  # noqa
+            fails.append((f"parse_concentration could not be run under default_weight_volume_units = {unit!r}: {p.stdout[-200:]}", {'kind': 'wv-config', 'unit': unit}))
+            continue
+        for s, r in zip(strings, res):
+            want = F(s.split()[0]) / 100 * per_L        # grams per litre
+            if r[0] != 'ok':
+                fails.append((f"under default_weight_volume_units = {unit!r}, {s!r} raised {r[1]}", {'kind': 'wv-config', 'unit': unit, 'string': s}))
+                continue
+            pn, bn = [(k, b) for b in ('mol', 'L', 'g', 'U') for k in [r[2][:-len(b)]] if r[2].endswith(b)][0]
+            pd_, bd = [(k, b) for b in ('mol', 'L', 'g', 'U') for k in [r[3][:-len(b)]] if r[3].endswith(b)][0]
+            got = F(repr(r[1])) * SI[pn] / SI[pd_] if (bn, bd) == ('g', 'L') else None
+            if got is None or abs(got - want) > want * F(1, 10**9):
+                fails.append((f"under default_weight_volume_units = {unit!r}, {s!r} is read as {r[1:]} = {None if got is None else float(got)!r} g/L; "
+                              f"{s.split()[0]} hundredths of a {unit} are {float(want)!r} g/L", {'kind': 'wv-config', 'unit': unit, 'string': s}))
+    return fails
+
+
 def replay(path):
     r = json.load(open(path))
     print(json.dumps(r, indent=1)[:2000])
+    if r.get('kind') == 'wv-config':
+        f = wv_config_part(only=r['unit'])
+        for msg, _ in f:
+            print('PROPERTY FAILS:', msg)
+        print('property', 'FAILS' if f else 'HOLDS', 'on this input')
+        return 1 if f else 0
     if r.get('kind') == 'quantity':
         impl = impl_quantity(r['string'])
         parts = r['string'].split(' ')
